@@ -183,7 +183,7 @@ func runJob(tier string, idx int, ss []*prog.Shape) ([]prog.Result, []*prog.Resu
 	cfg := prog.BatchConfig{
 		MCDir: mc, RelDir: rel + "w", Parquetgen: os.Getenv("VERIF_PARQUETGEN"),
 		RunnerPkg: "verif/mc/checks/c15/runner", Env: []string{"PROGRUN_MODE=c15w", "C15_DATA=" + data},
-		BuildP: 3, Timeout: 5 * time.Minute, GoCache: os.Getenv("VERIF_SCRATCH_GOCACHE"),
+		BuildP: 3, Timeout: 15 * time.Minute, GoCache: os.Getenv("VERIF_SCRATCH_GOCACHE"),
 	}
 	r1, err := prog.RunBatch(cfg, progs)
 	if err != nil {
